@@ -462,7 +462,10 @@ class Command:
         if not self.has_arguments():
             return False
         if self.iscomplete(atype, avalue):
-            return False
+            # a command without required arguments is complete from the
+            # start but still accepts its optional tagged arguments
+            if self.required_args or atype != "tag":
+                return False
 
         if self.curarg is not None and "extra_arg" in self.curarg:
             condition = atype in self.curarg["extra_arg"]["type"] and (
@@ -527,6 +530,9 @@ class Command:
                 break
 
             pos += 1
+        else:
+            # no argument definition accepts this argument
+            return False
 
         if failed:
             raise BadArgument(self.name, avalue, self.args_definition[pos]["type"])
